@@ -335,7 +335,7 @@ struct Ad
                 if constexpr (T.is_set)
                     ok = c.insert(Key{o.key[0]}, to_allow(o.allow));
                 else if constexpr (T.ttl_per_entry)
-                    ok = c.insert(ms(o.ttl[0]), Key{o.key[0]}, Val(o.wid[0], o.key[0]), to_allow(o.allow));
+                    ok = c.insert(ms(o.ttl_big ? o.ttl_big : (int64_t)o.ttl[0]), Key{o.key[0]}, Val(o.wid[0], o.key[0]), to_allow(o.allow));
                 else
                     ok = c.insert(Key{o.key[0]}, Val(o.wid[0], o.key[0]), to_allow(o.allow));
                 r.push(ok);
